@@ -260,6 +260,7 @@ def run(prop, tier, seed):
         nr = 180 if quick else 4000
         rnd = [gen_core.gen_scenario(seed, i) for i in range(nr)]
         big = [gen_core.gen_big(seed, i) for i in range(24 if quick else 240)]
+        big += [gen_core.gen_edge(seed, i) for i in range(16 if quick else 160)]       # boundary values of the request fields
         direct = directed_scenarios()
         scs = beh + rnd + big + direct
         binp = vbuild.build_inpkg("server", wd)
